@@ -365,6 +365,72 @@ async fn one_config(ctx: &mut Ctx, rng: &mut SRng, ep: &Epoch, proto: Proto, tri
     }
 }
 
+/// `Rotor::with_sampler` reconfigures an instance that may already have routed shreds: afterwards it must route
+/// exactly like a fresh instance given that sampler at once (the relay cache is a memoisation of the
+/// *current* sampler, nothing else).
+async fn reconfigured_instance(ctx: &mut Ctx, rng: &mut SRng, ep: &Epoch) {
+    use alpenglow::disseminator::rotor::{SamplingStrategy, StakeWeightedSampler};
+    let n = ep.n();
+    if n < 3 {
+        return;
+    }
+    let log: Arc<Mutex<Vec<Datagram>>> = Arc::new(Mutex::new(Vec::new()));
+    let mk_net = || {
+        let net = NetHandle::new();
+        let l = log.clone();
+        net.0.lock().unwrap().on_send = Some(Box::new(move |d| l.lock().unwrap().push(d.clone())));
+        net
+    };
+    // the second sampler weighs the validators differently (stakes rotated by one position)
+    let mut vs2 = ep.validators().to_vec();
+    let stakes: Vec<_> = vs2.iter().map(|v| v.stake).collect();
+    for (i, v) in vs2.iter_mut().enumerate() {
+        v.stake = stakes[(i + 1) % n];
+    }
+    let mk2 = || StakeWeightedSampler::new(vs2.clone()).into_quorum_strategy(alpenglow::shredder::TOTAL_SHREDS);
+    let (na, nb) = (mk_net(), mk_net());
+    let leader_slot = 4 * rng.random_range(1..40u64);
+    let leader = leader_of(ep, leader_slot);
+    let slice = rng.random_range(0..8u64);
+    let r = crate::evidence::guarded_async(async {
+        let used: Rotor<SNet, _> = Rotor::new(na.endpoint(Ep::Diss, leader), ep.own(leader));
+        // route a few shreds of the slice (fills the cache under the first sampler)
+        for idx in 0..4u64 {
+            used.send(&mk_shred(leader_slot, slice, idx)).await.ok();
+        }
+        log.lock().unwrap().clear();
+        let used = used.with_sampler(mk2());
+        let fresh: Rotor<SNet, _> = Rotor::new(nb.endpoint(Ep::Diss, leader), ep.own(leader)).with_sampler(mk2());
+        let mut diffs = Vec::new();
+        for idx in 0..64u64 {
+            let s = mk_shred(leader_slot, slice, idx);
+            used.send(&s).await.ok();
+            let a: Vec<usize> = std::mem::take(&mut *log.lock().unwrap()).iter().map(|d| d.to.1).collect();
+            fresh.send(&s).await.ok();
+            let b: Vec<usize> = std::mem::take(&mut *log.lock().unwrap()).iter().map(|d| d.to.1).collect();
+            if a != b {
+                diffs.push((idx, a, b));
+            }
+        }
+        diffs
+    })
+    .await;
+    ctx.eval();
+    ctx.count("reconfigured-instances");
+    match r {
+        Err(p) => ctx.violation(format!("C16 rotor routing {} after with_sampler", p.sig()), p.msg, json!({"n": n, "family": ep.family})),
+        Ok(diffs) => {
+            if let Some((idx, a, b)) = diffs.first() {
+                ctx.violation(
+                    "C16 rotor instance reconfigured with with_sampler routes differently from a fresh instance with that sampler".to_string(),
+                    format!("slot {leader_slot} slice {slice} shred {idx}: {a:?} vs {b:?} ({} of 64 shreds differ)", diffs.len()),
+                    json!({"n": n, "family": ep.family, "stakes": if n <= 32 { json!(ep.stakes) } else { json!(null) }}),
+                );
+            }
+        }
+    }
+}
+
 pub fn run(ctx: &mut Ctx) -> Result<(), String> {
     let rt = tokio::runtime::Builder::new_current_thread().enable_all().start_paused(true).build().map_err(|e| e.to_string())?;
     let mut rng = ctx.rng("cfg");
@@ -401,6 +467,9 @@ pub fn run(ctx: &mut Ctx) -> Result<(), String> {
         };
         let triples = if n > 100 { 12 } else if ctx.quick() { 40 } else { 120 };
         rt.block_on(tokio::task::unconstrained(one_config(ctx, &mut rng, &ep, proto, triples)));
+        if matches!(proto, Proto::Rotor) && n <= 64 {
+            rt.block_on(tokio::task::unconstrained(reconfigured_instance(ctx, &mut rng, &ep)));
+        }
     }
     drop(rt);
     // the forwarding decision itself is taken in the node's message loop: whole nodes, fault-free runs
